@@ -1127,28 +1127,46 @@ func (e *Engine) fieldAddr(st *State, fr *Frame, base Val, field int, rt types.T
 // subRef: the reference of the sub-object at leaf offset off inside object ref of type root.
 // Sub-references are negative (never confused with allocated objects or nil) and injective.
 func (e *Engine) subRef(ref Term, root types.Type, off int) Term {
-	name := fmt.Sprintf("sub_%s_%d", e.relKey(typeKey(root)), off)
-	f := e.ctx.Fun(name, []Sort{SInt}, SInt)
-	inv := e.ctx.Fun(name+"_inv", []Sort{SInt}, SInt)
-	e.ctx.Axiom(name+"_neg", fmt.Sprintf("(forall ((x Int)) (! (< (%s x) 0) :pattern ((%s x))))", f, f))
-	e.ctx.Axiom(name+"_inj", fmt.Sprintf("(forall ((x Int)) (! (= (%s (%s x)) x) :pattern ((%s x))))", inv, f, f))
-	e.subFuns[name] = true
-	// different sub-object kinds never coincide
-	var names []string
-	for n := range e.subFuns {
-		names = append(names, n)
+	if e.rel != nil {
+		name := fmt.Sprintf("sub_%s_%d", e.relKey(typeKey(root)), off)
+		f := e.ctx.Fun(name, []Sort{SInt}, SInt)
+		inv := e.ctx.Fun(name+"_inv", []Sort{SInt}, SInt)
+		e.ctx.Axiom(name+"_neg", fmt.Sprintf("(forall ((x Int)) (! (< (%s x) 0) :pattern ((%s x))))", f, f))
+		e.ctx.Axiom(name+"_inj", fmt.Sprintf("(forall ((x Int)) (! (= (%s (%s x)) x) :pattern ((%s x))))", inv, f, f))
+		return T(SInt, "(%s %s)", f, ref.S)
 	}
-	sort.Strings(names)
-	for _, other := range names {
-		if other != name {
-			a, b := name, other
-			if b < a {
-				a, b = b, a
-			}
-			e.ctx.Axiom("sub_disj_"+a+"_"+b, fmt.Sprintf("(forall ((x Int) (y Int)) (! (not (= (%s x) (%s y))) :pattern ((%s x) (%s y))))", a, b, a, b))
-		}
+	// one binary injection sub(owner, code) into the negative integers, with inverses, and allocid(r): the
+	// allocation number of the (outermost) object a reference points into
+	code := e.subCode(typeKey(root), off)
+	e.ctx.Fun("sub", []Sort{SInt, SInt}, SInt)
+	e.ctx.Fun("sub_owner", []Sort{SInt}, SInt)
+	e.ctx.Fun("sub_code", []Sort{SInt}, SInt)
+	e.ctx.Fun("allocid", []Sort{SInt}, SInt)
+	e.ctx.Axiom("sub_neg", "(forall ((x Int) (c Int)) (! (< (sub x c) 0) :pattern ((sub x c))))")
+	e.ctx.Axiom("sub_inj", "(forall ((x Int) (c Int)) (! (and (= (sub_owner (sub x c)) x) (= (sub_code (sub x c)) c) (= (allocid (sub x c)) (allocid x))) :pattern ((sub x c))))")
+	e.ctx.Axiom("allocid_pos", "(forall ((x Int)) (! (=> (>= x 0) (= (allocid x) x)) :pattern ((allocid x))))")
+	return T(SInt, "(sub %s %d)", ref.S, code)
+}
+
+func (e *Engine) subCode(key string, off int) int {
+	k := fmt.Sprintf("%s#%d", key, off)
+	if c, ok := e.subCodes[k]; ok {
+		return c
 	}
-	return T(SInt, "(%s %s)", f, ref.S)
+	c := len(e.subCodes) + 1
+	e.subCodes[k] = c
+	return c
+}
+
+// allocID: the allocation number of the object a reference points into (the reference itself unless
+// sub-object references are in play for this function).
+func (e *Engine) allocID(t Term) Term {
+	if !e.useAllocID {
+		return t
+	}
+	e.ctx.Fun("allocid", []Sort{SInt}, SInt)
+	e.ctx.Axiom("allocid_pos", "(forall ((x Int)) (! (=> (>= x 0) (= (allocid x) x)) :pattern ((allocid x))))")
+	return T(SInt, "(allocid %s)", t.S)
 }
 
 func (e *Engine) indexAddr(st *State, fr *Frame, sv Val, iv Val, rt types.Type, pos string) Val {
